@@ -566,6 +566,16 @@ class Executor:
             raise Untranslatable("operand " + t)
         place = self.parse_place(st, fn, m.group(2), frame)
         ty = self.type_of_place(fn, place, frame)
+        if ty is None:
+            # `(*_N)` / `(*(*_N))`: the pointee type of a local declared as a pointer
+            dm = re.match(r"^(\(\*)+(_\d+)\)+$", m.group(2).strip())
+            if dm:
+                decl = (fn.locals.get(dm.group(2)) or "").strip()
+                for _ in range(m.group(2).count("(*")):
+                    pm = re.match(r"^(?:&(?:'\w+ )?(?:mut )?|\*const |\*mut )(.*)$", decl)
+                    decl = pm.group(1).strip() if pm else ""
+                if decl and not decl.startswith(("&", "*const", "*mut")):
+                    ty = decl
         sort = sort_of_type(ty) if ty else sort_hint
         if sort is None and ty is not None:
             key = place.key()
@@ -575,6 +585,21 @@ class Executor:
                 # reference-typed argument: a pointer to memory rooted at its own name
                 return ("ref", Place("*" + key))
             return ("agg", place, ty)
+        if sort is None and ty is None and place.projs and all(pp[0] == "deref" for pp in place.projs):
+            # `*_N` / `**_N` of a local declared as a (nested) pointer: strip one pointer level per deref
+            loc = place.root[len(frame):] if place.root.startswith(frame) else place.root
+            decl = (fn.locals.get(loc) or "").strip()
+            for _ in place.projs:
+                mm = re.match(r"^(?:&(?:'\w+ )?(?:mut )?|\*const |\*mut )(.*)$", decl)
+                decl = mm.group(1).strip() if mm else ""
+            if decl:
+                if decl.startswith(("&", "*const", "*mut")):
+                    key = place.key()
+                    return ("ref", st.refs.get(key) or Place("*" + key))
+                srt = sort_of_type(decl)
+                if srt is not None:
+                    return self.read_place(st, fn, place, srt, frame)
+                return ("agg", place, decl)
         if sort is None and ty is None and place.key().startswith("*") and not place.projs:
             # `*_N` where `_N: &&T` (or deeper): the value read is itself a reference
             loc = place.root.lstrip("*")
@@ -718,6 +743,10 @@ class Executor:
             a, b = split_top(m.group(2))
             av = self.operand(st, fn, a, frame)
             bv = self.operand(st, fn, b, frame, av.s if isinstance(av, Val) else None)
+            if (not isinstance(av, Val) or not isinstance(bv, Val)) and m.group(1) in ("Eq", "Ne", "Lt", "Le", "Gt", "Ge"):
+                # comparison of pointers (slice iterators): an arbitrary boolean
+                put(self.fresh("ptrcmp:" + dst.key(), ("bool",)))
+                return
             put(self.binop(m.group(1), av, bv))
             return
         if m and m.group(1) == "Cmp":
